@@ -1,4 +1,3 @@
-use core::slice;
 use std::cmp::Ordering;
 use std::fmt::Display;
 use std::fmt::Formatter;
@@ -222,9 +221,9 @@ impl<const N: usize> AEADCipherCodec<N> {
                 CipherKind::Aead2022Blake3ChaCha8Poly1305 | CipherKind::Aead2022Blake3ChaCha20Poly1305 => {
                     let (nonce, text) = src.split_at_mut(udp::nonce_length(kind));
                     let session_id = {
-                        let slice = &text[..8];
-                        let slice: &[u64] = unsafe { slice::from_raw_parts(slice.as_ptr() as *const _, 1) };
-                        u64::from_be(slice[0])
+                        let mut first = [0u8; 8];
+                        first.copy_from_slice(&text[..8]);
+                        u64::from_be_bytes(first)
                     };
                     let cipher = unsafe { get_cipher(kind, context.key, session_id) };
                     cipher.decrypt_in_place_detached(nonce, &[], text).map_err(|e| anyhow!(e))?;
@@ -307,9 +306,9 @@ impl<const N: usize> AEADCipherCodec<N> {
             CipherKind::Aead2022Blake3ChaCha8Poly1305 | CipherKind::Aead2022Blake3ChaCha20Poly1305 => {
                 let (nonce, text) = src.split_at_mut(nonce_length);
                 let session_id = {
-                    let slice = &text[..8];
-                    let slice: &[u64] = unsafe { slice::from_raw_parts(slice.as_ptr() as *const _, 1) };
-                    u64::from_be(slice[0])
+                    let mut first = [0u8; 8];
+                    first.copy_from_slice(&text[..8]);
+                    u64::from_be_bytes(first)
                 };
                 let cipher = unsafe { get_cipher(self.kind, context.key, session_id) };
                 cipher.decrypt_in_place_detached(nonce, &[], text).map_err(|e| anyhow!(e))?;
